@@ -92,6 +92,18 @@ func genC14(rng *rand.Rand, c *Case) {
 			}
 		}
 	}
+	c14Joiners(rng, c)
+}
+
+// c14Joiners: users that log in while the others' requests and broadcasts are in flight (drawn after everything else).
+func c14Joiners(rng *rand.Rand, c *Case) {
+	c.Cfg["joiners"] = rng.Intn(3)
+	if c.Cfg["joiners"] > 0 && rng.Intn(2) == 0 {
+		c.Cfg["bigcasts"] = 3 + rng.Intn(6)
+	}
+	for j := 0; j < c.Cfg["joiners"]; j++ {
+		c.Cfg[fmt.Sprintf("jdelay%d", j)] = []int{0, rng.Intn(30), rng.Intn(300), rng.Intn(3000)}[rng.Intn(4)]
+	}
 }
 
 func runC14(w *World) {
@@ -136,6 +148,18 @@ func runC14(w *World) {
 				}
 			}
 			orng := rand.New(rand.NewSource(w.Case.Seed ^ int64(idx)))
+			if idx == 0 && cfg["bigcasts"] > 0 {
+				// a burst of broadcasts too large for one write, released at the instant a user starts to log in:
+				// some of them are addressed to that user while its login is still being answered
+				for j := 0; j < cfg["joiners"]; j++ {
+					w.Meet(9000+j, 2)
+					for k := 0; k < cfg["bigcasts"]; k++ {
+						c.Request(rp.TUserBroadcast, rp.FS(rp.FData, randText(orng, 33000+orng.Intn(27000))))
+						Delay(orng.Intn(12))
+					}
+					w.Probe("broadcast_bursts_released_with_a_login")
+				}
+			}
 			for _, op := range w.Case.Ops {
 				if op.C != idx {
 					continue
@@ -205,6 +229,29 @@ func runC14(w *World) {
 				c.Disconnect()
 				return
 			}
+			Settle()
+			Settle()
+		})
+	}
+	for j := 0; j < cfg["joiners"]; j++ {
+		jc := w.NewClient(fmt.Sprintf("j%d", j), fmt.Sprintf("10.2.0.%d", j+1))
+		delay := cfg[fmt.Sprintf("jdelay%d", j)]
+		jn := j
+		w.Sim.Go(fmt.Sprintf("j%d", j), true, func() {
+			for ready < n {
+				simrt.Park(&barrier)
+			}
+			Delay(delay)
+			if cfg["bigcasts"] > 0 {
+				w.Meet(9000+jn, 2) // released together with a burst of large broadcasts from client 0
+			}
+			w.Probe("logins_during_traffic")
+			if !(jc.Login("guest", "", "", 0) && jc.Agree(jc.Name, 77, 0, "")) && jc.FrameErr == nil {
+				w.Violate("c14-login-reply-lost", "a user logging in while others' traffic is in flight got no (successful) login reply; it received %d transactions", len(jc.AllRecv))
+				return
+			}
+			jc.Request(rp.TKeepAlive)
+			jc.Request(rp.TGetUserNameList)
 			Settle()
 			Settle()
 		})
